@@ -35,7 +35,7 @@ def exhaustive(tier):
 def required(tier):
     return {"answers_compared": 2500, "repeated_after_state_change": 800, "cache_hits_observed": 500,
             "state_changes": 300, "distinct_states": 15, "second_registry_touches": 20,
-            "redefinition_histories": 20, "keyword_activations": 50, "keyword_override_histories": 20, "redefining_context_histories": 8, "new_name_histories": 6, "explicit_system_histories": 8}
+            "redefinition_histories": 20, "keyword_activations": 50, "keyword_override_histories": 20, "redefining_context_histories": 8, "new_name_histories": 6, "derived_spelling_histories": 10, "explicit_system_histories": 8}
 
 
 NEWDEFS = ["vfu0 = 3 * meter = vf0", "vfu1 = 7 * vfu0", "vfu2 = 2 * pound * vfu1 / second ** 2",
@@ -107,6 +107,9 @@ def shards(tier, seed):
                     "nit": "fraction" if i % 2 else "float"})
     for i in range(2 if tier == "quick" else 6):
         out.append({"kind": "newname", "name": f"newname{i}", "n": 3 if tier == "quick" else 30,
+                    "nit": "fraction" if i % 2 else "float"})
+    for i in range(2 if tier == "quick" else 6):
+        out.append({"kind": "spellings", "name": f"spellings{i}", "n": 8 if tier == "quick" else 80,
                     "nit": "fraction" if i % 2 else "float"})
     for i in range(2 if tier == "quick" else 6):
         out.append({"kind": "redefctx", "name": f"redefctx{i}", "n": 4 if tier == "quick" else 30,
@@ -220,6 +223,29 @@ class World:
     def __init__(self, pint, pintload, nit=float):
         self.pint, self.pintload, self.nit = pint, pintload, nit
         self.twins = {}
+        self.fresh_per_question = False   # spellings workload: a twin registry is never asked twice
+        self._base_names = None
+
+    def base_names(self):
+        if self._base_names is None:
+            self._base_names = set(self.fresh()._units)
+        return self._base_names
+
+    def through_auto_registered(self, ureg, q):
+        """Finding D17 (recorded for C08): a prefixed unit that was looked up is stored under its CANONICAL
+        name in the table of defined units, so that name can be prefixed / pluralised again afterwards
+        ('ukilosecond' once 'kilosecond' was resolved). True when a word of the question is read through such
+        an entry (the canonical name is literally part of the word)."""
+        import re
+        for tok in re.findall(r"[A-Za-z_]+", " ".join(str(x) for x in q[1:])):
+            try:
+                cands = ureg.parse_unit_name(tok)
+            except Exception:  # noqa: BLE001
+                continue
+            for _p, name, _s in cands:
+                if name not in self.base_names() and name in tok and name != tok and name not in DEFNAMES:
+                    return True
+        return False
 
     def fresh(self):
         u = self.pintload.registry(non_int_type=self.nit)
@@ -231,7 +257,7 @@ class World:
         if key in self.twins:
             return self.twins[key]
         ndefs, stack, system = state
-        tw = self.twins.get(("registry", state))
+        tw = None if self.fresh_per_question else self.twins.get(("registry", state))
         if tw is None:
             tw = self.fresh()
             for line in NEWDEFS[:ndefs]:
@@ -240,7 +266,8 @@ class World:
                 tw.default_system = system
             for c in stack:
                 enable_token(tw, c)
-            self.twins[("registry", state)] = tw
+            if not self.fresh_per_question:
+                self.twins[("registry", state)] = tw
             if len([k for k in self.twins if k[0] == "registry"]) > 40:
                 # bound memory: drop the oldest twin registries (their answers stay memoised)
                 for k in [k for k in self.twins if k[0] == "registry"][:10]:
@@ -295,12 +322,13 @@ def run_history(ops, world, rec, rng, tag, pool=None):
                     rec.violation("answer-depends-on-history",
                                   {"question": ["define", NEWDEFS[ndefs]], "aged_registry": f"{type(e).__name__}: {e}"[:300],
                                    "fresh_twin": "accepted", "state": repr(state_before),
-                                   "trace": [list(map(str, t)) for t in trace[-10:]]},
+                                   "trace": [list(map(str, t)) for t in trace[-60:]]},
                                   question_kind="define", redefining_context_active="vredef" in stack,
                                   redefining_context_used_earlier=any(t == ("enable", "vredef") for t in trace)
                                   and "vredef" not in stack,
                                   touches_base_units=False, workload=tag,
                                   asks_about_name_first_read_as_prefixed_unit_then_defined=False,
+                                  reads_through_auto_registered_prefixed_unit=False,
                                   asks_about_unit_defined_inside_redefining_context=any(
                                       n in NEWDEFS[ndefs] for n in lost))
                     defined_inside_redef.add(DEFNAMES[ndefs])
@@ -389,10 +417,11 @@ def run_history(ops, world, rec, rng, tag, pool=None):
             was_redef = any(t == ("enable", "vredef") for t in trace)
             rec.violation("answer-depends-on-history",
                           {"question": list(q), "aged_registry": got[:300], "fresh_twin": want[:300],
-                           "state": repr(state), "trace": [list(map(str, t)) for t in trace[-10:]]},
+                           "state": repr(state), "trace": [list(map(str, t)) for t in trace[-60:]]},
                           question_kind=q[0], redefining_context_active=in_redef,
                           redefining_context_used_earlier=was_redef and not in_redef,
                           touches_base_units=q[0] in ("base", "to_base", "compact"), workload=tag,
+                          reads_through_auto_registered_prefixed_unit=world.through_auto_registered(ureg, q),
                           asks_about_name_first_read_as_prefixed_unit_then_defined=("dab" in repr(q) and ndefs > NEWDEFS.index("dab = 5 * meter")),
                           asks_about_unit_defined_inside_redefining_context=any(
                               n in repr(q) or (n == "vfu0" and "vf0" in repr(q)) for n in
@@ -466,6 +495,34 @@ def run_shard(spec, rec):
                 ops += ["define"] + allq
             run_history(ops, world, rec, rng, "newname", pool=pool)
             rec.count("new_name_histories")
+    elif spec["kind"] == "spellings":
+        # spellings a registry resolves lazily (prefix symbol + unit symbol, plurals), then spellings BUILT ON
+        # them by one more prefix or suffix (kss, mkm, kilometerss) which a new registry mostly refuses:
+        # what was asked before must not change any of the answers
+        psym = ["k", "m", "M", "c", "u", "n", "kilo", "milli"]
+        usym = ["m", "s", "g", "Pa", "Hz", "W", "N", "J", "V", "meter", "second", "gram", "hour"]
+        for i in range(spec["n"]):
+            firsts = [rng.choice(psym) + rng.choice(usym) for _ in range(3)]
+            pool = []
+            for f in firsts:
+                pool.append(("parse_units", f))
+            pool.append(("parse_units", "dab"))            # index 3 is replaced by run_history
+            for f in firsts:
+                d = rng.choice((rng.choice(psym) + f, f + "s", rng.choice(psym) + f + "s"))
+                pool.append(rng.choice((("parse_units", d), ("convert", d, f), ("parse_expression", "2 " + d))))
+            pool.append(("parse_units", firsts[0] + "s"))
+            allq = [f"q{j}" for j in range(8)]
+            ops = []
+            for r in range(4):
+                order = list(allq)
+                if r:
+                    rng.shuffle(order)
+                ops += order
+                if rng.random() < 0.3:
+                    ops += [rng.choice(("sys", "ctx_rule_on", "ctx_off", "second"))]
+            world.fresh_per_question = True
+            run_history(ops, world, rec, rng, "spellings", pool=pool)
+            rec.count("derived_spelling_histories")
     elif spec["kind"] == "redefctx":
         # every question about a unit that depends on the unit redefined by the context 'vredef' (directly,
         # or through symbols / aliases several definitions away) is asked before, inside and after it
